@@ -11,12 +11,12 @@
       init_group_gen_spec: init_group_gen = init_group_spec, a heap-free functional program
          phase1 (per entry: type table, application, logic-sig, duplicate id)  ;
          phase2 (per entry: relative indexes, absolute index)  ;  fill_group_relative_indexes.
-   2. init_group_ok_iff: the construction returns iff the DECIDABLE predicate group_cfg_ok holds
+   2. (Lemmas/GroupCfgOk.v) init_group_returns_iff: the construction returns iff the flat BOOLEAN group_cfg_ok holds
          = every txn_type is a key of USER_CONFIG_TRANSACTION_TYPES, every application / logic_sig names a listed
            contract and one of its functions, of the right kind, the ids are pairwise distinct, every relative index
            names an id of the group, the absolute indexes are pairwise distinct;
-      init_group_raises: when it raises, WHICH exception, each with its condition (KeyError = unknown txn_type, which
-      GroupConfigTransaction.from_yaml excludes; the seven TealerException templates).
+      init_raises_*: when it raises, WHICH exception, each with its condition (KeyError = unknown txn_type, which
+      GroupConfigTransaction.from_yaml excludes; the seven TealerException templates); fill_cannot_raise.
    3. init_group_ok_view: when it returns (heap, g), the observable attributes are exactly the model's records:
          view_group heap g = map (cfg_gtxn contracts) entries  (listing order; type through the table; has_logic_sig
          forced when a logic_sig is given; functions by index; relative_indexes = rel_dict of the configured pairs:
@@ -489,7 +489,7 @@ Definition cfg_rel_pairs (e : GroupConfigTransaction) : list (Z * string) :=
 (* the model record of a configuration entry, as the request format of the model gives it (g_rel = the pairs) .. *)
 Definition raw_gtxn (cs : list (string * tcontract)) (e : GroupConfigTransaction) : gtxn :=
   mkTxn (ct_txn_id e) (cfg_type e) (cfg_has_logic_sig e) (cfg_fn cs (ct_logic_sig e)) (cfg_fn cs (ct_application e))
-        (option_map Z.to_N (ct_absolute_index e)) (cfg_rel_pairs e).
+        (option_map abs_slot (ct_absolute_index e)) (cfg_rel_pairs e).
 (* .. and with its relative indexes in the form the model itself reads them (Group.rel_dict: a later pair for the same
    offset replaces the earlier one in place) *)
 Definition normalize (t : gtxn) : gtxn :=
@@ -499,7 +499,7 @@ Definition cfg_gtxn (cs : list (string * tcontract)) (e : GroupConfigTransaction
 Definition phi (ids : list string) (kv : Z * nat) : Z * string := (fst kv, nth (snd kv) ids "").
 Definition view_with (ids : list string) (o : tobj) : gtxn :=
   mkTxn (o_transacton_id o) (o_type o) (o_has_logic_sig o) (option_map fst (o_logic_sig o)) (option_map fst (o_application o))
-        (option_map Z.to_N (o_absoulte_index o)) (map (phi ids) (o_relative_indexes o)).
+        (option_map abs_slot (o_absoulte_index o)) (map (phi ids) (o_relative_indexes o)).
 
 Lemma fold_left_map' {A B C} (f : A -> C -> A) (g : B -> C) l a : fold_left f (map g l) a = fold_left (fun a x => f a (g x)) l a.
 Proof. revert a. induction l as [|x l IH]; intros a; [reflexivity|]. cbn [map fold_left]. apply IH. Qed.
@@ -575,7 +575,7 @@ Lemma entry_obj_view cs ids e o rel :
   entry_obj cs e = Ok o ->
   view_with ids (set_o_relative_indexes rel (set_o_group_transaction true o)) =
   mkTxn (ct_txn_id e) (cfg_type e) (cfg_has_logic_sig e) (cfg_fn cs (ct_logic_sig e)) (cfg_fn cs (ct_application e))
-        (option_map Z.to_N (ct_absolute_index e)) (map (phi ids) rel) /\
+        (option_map abs_slot (ct_absolute_index e)) (map (phi ids) rel) /\
   o_relative_indexes o = [] /\ o_absoulte_index o = ct_absolute_index e /\ o_transacton_id o = ct_txn_id e.
 Proof.
   unfold entry_obj, cfg_type. intros H.
